@@ -18,6 +18,10 @@ CHECKS = {
          "Exploration: documents of both grammars rendered with hostile trivia (multi-line block strings, CR/CRLF/LF CR, BOMs, comments, multi-byte) before every node kind, their single-token mutations (error locations), multi-file schema loads and validation errors; offset range, token-start, line, column, file and anchor text checked for every position the library reports.",
          "Trusts the line index (15 lines) and the reference lexer; lexical errors are only checked for bounds. One recorded known finding (quoted-string column, pinned by the suite).",
          "DESIGN.md §4 C04"),
+ "C16": ("limit-exactness oracle against an independent reference token count, every limit 0..T+2; hook counters (lexer reads, last scanned byte) for the work bound; lowered stack ceiling for recursion depth",
+         "Exploration: ~8k (quick) / 60k (thorough) documents of both grammars (valid and single-token-mutated, comments everywhere) are parsed under every limit from 0 to T+2 through ParseQueryWithTokenLimit, ParseSchemaWithLimit and ParseSchemasWithLimit (per-source limits); success must be exact (L=0 or L>=T reproduces the unlimited tree by reflect.DeepEqual; 0<L<T fails) and monotone, and every limit failure must have read at most L+2 tokens and scanned no byte beyond reference token L+2. 1-8 MiB floods (nesting, tokens, comments) under limits 1..15000 run with a 32 MiB stack ceiling so unbounded recursion is a fatal exit.",
+         "T comes from the reference lexer (C03); when the unlimited parse fails only failure (not the error text) is required of limits >= T, because the property asks no more. Work is measured in hook counters, not time.",
+         "DESIGN.md §4 C16"),
  "C19": ("runtime round-trip monitor: model(parse(x)) vs model(json.Unmarshal(json.Marshal(parse(x)))) over generated documents",
          "Exploration: every generated document is parsed by the real parser, encoded and decoded by the real (un)marshalers and compared with an independent AST→model adapter; 20k (quick) / 500k (thorough) documents with all three selection kinds at every depth and order. Held on what was observed, not a proof.",
          "Trusts encoding/json and the harness's model adapter; positions, comments and validation annotations are outside the property and not compared.",
